@@ -6136,6 +6136,8 @@ class Path(Shape, MutableSequence):
     def vertical(self, *y_points, relative=False, **kwargs):
         for index in range(len(y_points)):
             start_pos = self.current_point
+            if start_pos is None:
+                raise ValueError("No current point.")
             if relative:
                 self.append(
                     Line(
@@ -6157,6 +6159,8 @@ class Path(Shape, MutableSequence):
     def horizontal(self, *x_points, relative=False, **kwargs):
         for index in range(len(x_points)):
             start_pos = self.current_point
+            if start_pos is None:
+                raise ValueError("No current point.")
             if relative:
                 self.append(
                     Line(
@@ -6180,6 +6184,8 @@ class Path(Shape, MutableSequence):
         the second control point in the previous path."""
         for index in range(len(points)):
             start_pos = self.current_point
+            if start_pos is None:
+                raise ValueError("No current point.")
             control1 = self.smooth_point
             if len(self._segments) != 0 and not isinstance(
                 self._segments[-1], QuadraticBezier
@@ -6223,6 +6229,8 @@ class Path(Shape, MutableSequence):
         the second control point in the previous path."""
         for index in range(0, len(points), 2):
             start_pos = self.current_point
+            if start_pos is None:
+                raise ValueError("No current point.")
             control1 = self.smooth_point
             if len(self._segments) != 0 and not isinstance(
                 self._segments[-1], CubicBezier
@@ -6308,6 +6316,8 @@ class Path(Shape, MutableSequence):
     def arc(self, *arc_args, relative=False, **kwargs):
         for index in range(0, len(arc_args), 6):
             start_pos = self.current_point
+            if start_pos is None:
+                raise ValueError("No current point.")
             rx = arc_args[index]
             ry = arc_args[index + 1]
             if rx < 0:
